@@ -113,3 +113,32 @@ def reversedPath {Seg : Type} (rev : Seg → Seg) (segs : List Seg) : List Seg :
   (segs.map rev).reverse
 
 end SvgVerif.Model.PathOps
+
+namespace SvgVerif.Model.PathOps
+open SvgVerif.Model.PathParam
+/-! ### `transform_segments_together(path, transformation)`
+`orig` = (start, end) of the original segments, `tr` = (start, end) of the individually
+transformed ones.  For every joint of `path.joints()` — cyclic, so including the closing
+joint (as repaired, finding F26) — whose points coincided, the transformed segment's end is
+*assigned* the next transformed segment's start. -/
+variable {P Q : Type} [DecidableEq P]
+
+/-- cyclic shift by one: element `i` becomes the old element `i+1 (mod n)` -/
+def rot1 {α : Type} : List α → List α
+  | [] => []
+  | x :: xs => xs ++ [x]
+
+def weld (orig : List (Ends P)) (tr : List (Ends Q)) : List (Ends Q) :=
+  let nextOrigStart := rot1 (orig.map (·.1))
+  let nextTrStart := rot1 (tr.map (·.1))
+  List.zipWith (fun (o : Ends P × P) (t : Ends Q × Q) => (t.1.1, if o.1.2 = o.2 then t.2 else t.1.2))
+    (orig.zip nextOrigStart) (tr.zip nextTrStart)
+
+/-- the pre-repair behaviour: `joints()` omitted the closing pair -/
+def weldOpen (orig : List (Ends P)) (tr : List (Ends Q)) : List (Ends Q) :=
+  let w := weld orig tr
+  match tr.getLast? with
+  | none => w
+  | some z => w.dropLast ++ [z]
+
+end SvgVerif.Model.PathOps
